@@ -598,3 +598,423 @@ Proof.
     apply Hnotin. rewrite <- H. apply in_map. exact He'.
   - apply IH; [exact Hk'|]. intros e' He'. apply Hall. right. exact He'.
 Qed.
+
+(* ---- one accepted or skipped match keeps the invariant, and never fails ---- *)
+Lemma bfix_adjacent r g0 mp : bfix_on_bonds r = true -> match_ok r g0 mp = true ->
+  forall p q o, In (p, q, o) (r_bfix r) -> exists n m, zget mp p = Some n /\ zget mp q = Some m /\ adjacent g0 n m = true.
+Proof.
+  intros Hb Hm p q o Hin. destruct (match_ok_parts _ _ _ Hm) as [_ [_ Hbd]].
+  unfold bfix_on_bonds in Hb. rewrite forallb_forall in Hb. specialize (Hb _ Hin). cbn [fst snd] in Hb.
+  rewrite !andb_true_iff in Hb. destruct Hb as [[Hpb _] _].
+  unfold is_pbond in Hpb. rewrite existsb_exists in Hpb. destruct Hpb as [x [Hx Hor]].
+  destruct (Hbd x Hx) as [n [m [Hn [Hm' [Ha1 Ha2]]]]].
+  apply orb_true_iff in Hor. destruct Hor as [H|H]; apply andb_true_iff in H; destruct H as [H1 H2];
+    apply Z.eqb_eq in H1, H2; rewrite <- H1, <- H2.
+  - exists n, m. auto.
+  - exists m, n. auto.
+Qed.
+
+Lemma afix_entry_mapped r g0 mp : names_ok r = true -> match_ok r g0 mp = true ->
+  forall e, In e (r_afix r) -> exists n x, zget mp (af_atom e) = Some n /\ atom_of g0 n = Some x.
+Proof.
+  intros Hnm Hm e He. destruct (names_ok_parts r Hnm) as [_ [Hpat _]]. destruct (match_ok_parts _ _ _ Hm) as [_ [Hat _]].
+  destruct (pattern_id_patom r _ (Hpat e He)) as [a Ha]. destruct (patom_of_some _ _ _ Ha) as [Hin Hid].
+  destruct (patom_ok_parts _ _ _ (Hat a Hin)) as [n [x [Hn [Hx _]]]]. rewrite Hid in Hn. exists n, x. auto.
+Qed.
+
+Lemma all_constrained_no_unc r : forallb (fun x => constrained r (af_atom x)) (r_afix r) = true -> has_unc r = false.
+Proof.
+  intros H. unfold has_unc. destruct (existsb _ _) eqn:E; [|reflexivity].
+  rewrite existsb_exists in E. destruct E as [e [He Hn]]. rewrite forallb_forall in H. rewrite (H e He) in Hn. discriminate.
+Qed.
+
+Lemma unc_is_metal r e : metal_first r = true -> In e (r_afix r) -> constrained r (af_atom e) = false ->
+  is_pmetal r (af_atom e) = true /\ has_unc r = true.
+Proof.
+  intros Hmf He Hc. split.
+  - unfold metal_first in Hmf. destruct (r_afix r) as [|e0 rest]; [destruct He|].
+    apply andb_true_iff in Hmf. destruct Hmf as [Hrest Hfirst]. destruct He as [-> | He].
+    + rewrite Hc in Hfirst. cbn [orb] in Hfirst. rewrite !andb_true_iff in Hfirst. tauto.
+    + rewrite forallb_forall in Hrest. rewrite (Hrest e He) in Hc. discriminate.
+  - unfold has_unc. apply existsb_exists. exists e. split; [exact He|]. rewrite Hc. reflexivity.
+Qed.
+
+Lemma pmetal_is_metal r g0 mp p n x : match_ok r g0 mp = true -> is_pmetal r p = true ->
+  zget mp p = Some n -> atom_of g0 n = Some x -> is_metal (a_num x) = true.
+Proof.
+  intros Hm Hp Hn Hx. destruct (match_ok_parts _ _ _ Hm) as [_ [Hat _]].
+  unfold is_pmetal in Hp. destruct (patom_of r p) as [a|] eqn:Ea; [|discriminate].
+  destruct (pa_kind a) eqn:Ek; try discriminate.
+  destruct (patom_of_some _ _ _ Ea) as [Hin Hid].
+  destruct (patom_ok_parts _ _ _ (Hat a Hin)) as [n' [x' [Hn' [Hx' [_ [_ Hmet]]]]]].
+  rewrite Hid, Hn in Hn'. inversion Hn'; subst n'. rewrite Hx in Hx'. inversion Hx'; subst x'. exact (Hmet Ek).
+Qed.
+
+Lemma in_mapped mp fx k : In (Some k) (mapped mp fx) -> exists e, In e fx /\ zget mp (af_atom e) = Some k.
+Proof. unfold mapped. intros H. apply in_map_iff in H. destruct H as [e [He Hin]]. exists e. auto. Qed.
+
+Lemma opt_z_dec (a b : option Z) : {a = b} + {a <> b}.
+Proof. decide equality. apply Z.eq_dec. Qed.
+
+Lemma afix_outcome r g0 mp st :
+  rule_ok r = true -> NoDup (ids g0) -> match_ok r g0 mp = true -> inv r g0 st ->
+  disjoint (values mp) (ps_seen st) = true ->
+  (exists g' hs', afix_loop mp (r_afix r) (ps_mol st) (ps_hs st) = AfDone g' hs' /\
+     total_charge g' = total_charge (ps_mol st) + delta_sum r /\
+     (forall k, ~ In (Some k) (mapped mp (r_afix r)) -> atom_of g' k = atom_of (ps_mol st) k))
+  \/ (exists hs', afix_loop mp (r_afix r) (ps_mol st) (ps_hs st) = AfBad (ps_mol st) hs').
+Proof.
+  intros Hok Hnd Hm Hinv Hdis.
+  destruct (rule_ok_parts r Hok) as [Hrange [Hmf [Hnames _]]].
+  destruct (names_ok_parts r Hnames) as [Hafnd _].
+  destruct (match_ok_parts _ _ _ Hm) as [Hvnd _].
+  assert (Hnds : NoDup (ids (ps_mol st))) by (rewrite (skeleton_ids _ _ (inv_skel _ _ _ Hinv)); exact Hnd).
+  assert (Hmapped : forall e, In e (r_afix r) -> exists n, zget mp (af_atom e) = Some n).
+  { intros e He. destruct (afix_entry_mapped r g0 mp Hnames Hm e He) as [n [x [Hn _]]]. exists n. exact Hn. }
+  pose proof (mapped_nodup mp (r_afix r) Hvnd Hafnd Hmapped) as Hmnd.
+  destruct (forallb (fun x => constrained r (af_atom x)) (r_afix r)) eqn:Eall.
+  - (* every patched atom has a constrained charge *)
+    left. pose proof (all_constrained_no_unc r Eall) as Hnu. rewrite forallb_forall in Eall.
+    destruct (afix_loop_done mp (r_afix r) (ps_mol st) (ps_hs st) Hnds Hmnd) as [g' [hs' [Hrun [Htot Hun]]]].
+    + intros e He.
+      destruct (constrained_entry_ready r g0 mp st e Hrange Hnames Hm Hinv Hdis He (Eall e He) (or_introl Hnu))
+        as [n [a [Hn [Ha [Hle _]]]]]. exists n, a. auto.
+    + exists g', hs'. split; [exact Hrun|]. split; [exact Htot|exact Hun].
+  - (* the first entry is the unconstrained any-metal atom *)
+    pose proof Hmf as Hmf'. unfold metal_first in Hmf'. unfold delta_sum. unfold mapped in Hmnd |- *.
+    remember (r_afix r) as fx eqn:Efx.
+    assert (Hin_all : forall x, In x fx -> In x (r_afix r)) by (intros x0 Hx0; rewrite <- Efx; exact Hx0).
+    destruct fx as [|e rest]; [cbn in Eall; discriminate|].
+    apply andb_true_iff in Hmf'. destruct Hmf' as [Hrest Hfirst].
+    cbn [forallb] in Eall. rewrite Hrest, andb_true_r in Eall. rewrite Eall in Hfirst. cbn [orb] in Hfirst.
+    rewrite !andb_true_iff in Hfirst. destruct Hfirst as [[Hpos Hpm] Hnonm]. apply Z.leb_le in Hpos.
+    destruct (afix_entry_mapped r g0 mp Hnames Hm e (Hin_all e (or_introl eq_refl))) as [n [x [Hn Hx]]].
+    destruct (ids_atom_of (ps_mol st) n) as [a Ha].
+    { rewrite (skeleton_ids _ _ (inv_skel _ _ _ Hinv)). exact (atom_of_ids _ _ _ Hx). }
+    cbn [afix_loop]. rewrite Hn, Ha.
+    destruct (a_chg a + af_delta e >? 4) eqn:Egt.
+    + right. eexists. reflexivity.
+    + left. cbn [map] in Hmnd. inversion Hmnd as [|? ? Hnotin Hmnd']; subst. rewrite Hn in Hnotin.
+      set (g1 := upd_atom (ps_mol st) n (set_chg_rad (a_chg a + af_delta e) (af_rad e))).
+      assert (Hnd1 : NoDup (ids g1)) by (unfold g1; rewrite ids_upd_atom; exact Hnds).
+      rewrite forallb_forall in Hrest, Hnonm.
+      destruct (afix_loop_done mp rest g1 (add_set n (ps_hs st)) Hnd1 Hmnd') as [g' [hs' [Hrun [Htot Hun]]]].
+      * intros e' He'.
+        destruct (constrained_entry_ready r g0 mp st e' Hrange Hnames Hm Hinv Hdis (Hin_all e' (or_intror He')) (Hrest e' He')
+                    (or_intror (Hnonm e' He'))) as [n' [a' [Hn' [Ha' [Hle _]]]]].
+        exists n', a'. split; [exact Hn'|]. split; [|exact Hle].
+        unfold g1. rewrite atom_of_upd_atom. destruct (n' =? n) eqn:E; [|exact Ha'].
+        apply Z.eqb_eq in E. subst n'. exfalso. apply Hnotin. rewrite <- Hn'.
+        apply (in_map (fun e0 => zget mp (af_atom e0))). exact He'.
+      * exists g', hs'. split; [exact Hrun|]. split.
+        -- rewrite Htot. unfold g1. rewrite (total_upd_atom (ps_mol st) n _ a Hnds Ha).
+           cbn [map zsum fold_right a_chg set_chg_rad]. unfold zsum. lia.
+        -- intros k Hk. rewrite Hun by (intros Hin; apply Hk; cbn [map]; right; exact Hin).
+           unfold g1. rewrite atom_of_upd_atom. destruct (k =? n) eqn:E; [|reflexivity].
+           apply Z.eqb_eq in E. subst k. exfalso. apply Hk. cbn [map]. left. exact Hn.
+Qed.
+
+Lemma graph_of_adj g h : m_adj g = m_adj h -> graph_of g = graph_of h.
+Proof. unfold graph_of. intros ->. reflexivity. Qed.
+
+Lemma inv_weaken_seen r g0 g seen seen' hs hs' log log' :
+  inv r g0 (mkPS g seen hs log) -> (forall n, zmem n seen' = false -> zmem n seen = false) ->
+  inv r g0 (mkPS g seen' hs' log').
+Proof.
+  intros [H1 H2 H3 H4] Hs. constructor; cbn [ps_mol ps_seen] in *; try assumption.
+  intros n Hn Hu. apply H4; [apply Hs; exact Hn|exact Hu].
+Qed.
+
+Lemma apply_match_inv ridx r g0 mp st :
+  rule_ok r = true -> delta_sum r = 0 -> NoDup (ids g0) -> match_ok r g0 mp = true -> inv r g0 st ->
+  exists st', apply_match ridx r mp st = Ok st' /\ inv r g0 st'.
+Proof.
+  intros Hok Hbal Hnd Hm Hinv.
+  destruct (rule_ok_parts r Hok) as [Hrange [Hmf [Hnames Hbfix]]].
+  destruct (names_ok_parts r Hnames) as [Hafnd [Hafpat [Hbfpat [Hanypat Hanycon]]]].
+  destruct (match_ok_parts _ _ _ Hm) as [Hvnd [Hat Hbd]].
+  unfold apply_match.
+  destruct (disjoint (values mp) (ps_seen st)) eqn:Hdis; cbn [negb].
+  2: { exists st. split; [reflexivity|exact Hinv]. }
+  destruct (map_all_ok r g0 mp Hm (r_any r) Hanypat) as [anys [Hanys Hanys_iff]]. rewrite Hanys.
+  set (seen' := union_set (ps_seen st) (filter (fun x => negb (zmem x anys)) (values mp))).
+  assert (Hseen : forall n, zmem n seen' = false -> zmem n (ps_seen st) = false).
+  { intros n Hn. unfold seen' in Hn. rewrite zmem_union_set in Hn. apply orb_false_iff in Hn. tauto. }
+  destruct st as [g seen hs log]. cbn [ps_mol ps_seen ps_hs ps_log] in *.
+  destruct (afix_outcome r g0 mp (mkPS g seen hs log) Hok Hnd Hm Hinv Hdis) as [[g' [hs' [Hrun [Htot Hun]]]] | [hs' Hrun]];
+    cbn [ps_mol ps_hs] in Hrun; rewrite Hrun.
+  - (* the atom patch completed: now the bonds *)
+    pose proof (afix_loop_skeleton mp (r_afix r) g hs) as Hsk. rewrite Hrun in Hsk. destruct Hsk as [Hsk Hadj].
+    destruct (bfix_loop_ok mp (r_bfix r) g0 g' hs') as [g'' [hs'' [Hb [Hat'' Hgr'']]]].
+    + rewrite (graph_of_adj _ _ Hadj). exact (inv_graph _ _ _ Hinv).
+    + exact (bfix_adjacent r g0 mp Hbfix Hm).
+    + rewrite Hb. eexists. split; [reflexivity|]. constructor; cbn [ps_mol ps_seen].
+      * rewrite (skeleton_atoms _ _ Hat''), Hsk. exact (inv_skel _ _ _ Hinv).
+      * exact Hgr''.
+      * rewrite (total_atoms _ _ Hat''), Htot, Hbal, Z.add_0_r. exact (inv_total _ _ _ Hinv).
+      * intros k Hk Hu. rewrite (atom_of_atoms _ _ k Hat'').
+        destruct (in_dec opt_z_dec (Some k) (mapped mp (r_afix r))) as [Hin | Hnin].
+        -- exfalso. destruct (in_mapped _ _ _ Hin) as [e [He Hke]].
+           destruct (constrained r (af_atom e)) eqn:Ec.
+           ++ (* a constrained patched atom is not an any-atom: it went into seen' *)
+              assert (Hks : zmem k seen' = true).
+              { unfold seen'. rewrite zmem_union_set, zmem_filter. apply orb_true_iff. right.
+                rewrite (zget_value_in _ _ _ Hke). cbn [andb]. apply negb_true_iff.
+                destruct (zmem k anys) eqn:Ek; [|reflexivity]. exfalso.
+                apply zmem_In in Ek. apply Hanys_iff in Ek. destruct Ek as [p [Hp Hkp]].
+                assert (p = af_atom e) by (exact (nodup_values_inj mp _ _ k Hvnd (zget_In _ _ _ Hkp) (zget_In _ _ _ Hke))).
+                subst p. pose proof (Hanycon e He Ec) as Hno. apply zmem_In in Hp. rewrite Hp in Hno. discriminate. }
+              rewrite Hks in Hk. discriminate.
+           ++ (* the unconstrained one is the any-metal atom *)
+              destruct (unc_is_metal r e Hmf He Ec) as [Hpm Hhu].
+              destruct (afix_entry_mapped r g0 mp Hnames Hm e He) as [n [x [Hn Hx]]].
+              rewrite Hke in Hn. inversion Hn; subst n.
+              pose proof (pmetal_is_metal r g0 mp _ k x Hm Hpm Hke Hx) as Hmet.
+              unfold metal_atom in Hu. rewrite Hx, Hhu, Hmet in Hu. discriminate.
+        -- rewrite (Hun k Hnin). exact (inv_chg _ _ _ Hinv k (Hseen k Hk) Hu).
+  - (* bad charge formed: nothing was patched *)
+    eexists. split; [reflexivity|]. exact (inv_weaken_seen r g0 g seen seen' hs hs' log _ Hinv Hseen).
+Qed.
+
+Lemma matches_loop_inv ridx r g0 mps : forall st,
+  rule_ok r = true -> delta_sum r = 0 -> NoDup (ids g0) ->
+  (forall mp, In mp mps -> match_ok r g0 mp = true) -> inv r g0 st ->
+  exists st', matches_loop ridx r mps st = Ok st' /\ inv r g0 st'.
+Proof.
+  induction mps as [|mp mps IH]; intros st Hok Hbal Hnd Hall Hinv; cbn [matches_loop].
+  - exists st. split; [reflexivity|exact Hinv].
+  - destruct (apply_match_inv ridx r g0 mp st Hok Hbal Hnd (Hall mp (or_introl eq_refl)) Hinv) as [st1 [H1 Hinv1]].
+    rewrite H1. apply IH; try assumption. intros mp' Hin. apply Hall. right. exact Hin.
+Qed.
+
+Lemma inv_start r g log : inv r g (mkPS g [] [] log).
+Proof. constructor; cbn [ps_mol ps_seen]; try reflexivity. Qed.
+
+(* what a pass never changes *)
+Definition conserved (g g' : mol) : Prop :=
+  skeleton g' = skeleton g /\ graph_of g' = graph_of g /\ total_charge g' = total_charge g.
+
+Lemma conserved_refl g : conserved g g.
+Proof. repeat split. Qed.
+Lemma conserved_trans g1 g2 g3 : conserved g1 g2 -> conserved g2 g3 -> conserved g1 g3.
+Proof. intros [A1 [A2 A3]] [B1 [B2 B3]]. repeat split; congruence. Qed.
+
+Section PassCharge.
+  Variable matches : Z -> Z -> rule -> mol -> list mapping.
+  Variable calc_h : mol -> Z -> option Z.
+
+  (* the hypotheses on a rule list: the table obligations, a sound matcher, and: a rule that matches is balanced *)
+  Definition table_ok (rules : list rule) : Prop := forall r, In r rules -> rule_ok r = true.
+  Definition matcher_sound (rules : list rule) : Prop :=
+    forall stage ridx r g mp, In r rules -> In mp (matches stage ridx r g) -> match_ok r g mp = true.
+  Definition unbalanced_silent (rules : list rule) : Prop :=
+    forall stage ridx r g, In r rules -> delta_sum r <> 0 -> matches stage ridx r g = [].
+
+  Lemma recalc_conserved g hs : conserved g (recalc calc_h g hs).
+  Proof.
+    repeat split; [apply recalc_skeleton | apply graph_of_adj, recalc_graph | apply recalc_total].
+  Qed.
+
+  Theorem rules_loop_conserves stage fix_taut rules :
+    table_ok rules -> matcher_sound rules -> unbalanced_silent rules ->
+    forall ridx g log fixed, NoDup (ids g) ->
+    exists g' log' fixed', rules_loop matches calc_h stage ridx rules fix_taut g log fixed = Ok (g', log', fixed') /\ conserved g g'.
+  Proof.
+    induction rules as [|r rules IH]; intros Htab Hsound Hsil ridx g log fixed Hnd; cbn [rules_loop].
+    - exists g, log, fixed. split; [reflexivity|apply conserved_refl].
+    - assert (Htab' : table_ok rules) by (intros x Hx; apply Htab; right; exact Hx).
+      assert (Hsound' : matcher_sound rules) by (intros s i x g0 mp Hx; apply Hsound; right; exact Hx).
+      assert (Hsil' : unbalanced_silent rules) by (intros s i x g0 Hx; apply Hsil; right; exact Hx).
+      destruct (negb fix_taut && r_taut r); [apply IH; assumption|].
+      assert (Hstep : exists st, matches_loop ridx r (matches stage ridx r g) (mkPS g [] [] log) = Ok st /\ conserved g (ps_mol st)).
+      { destruct (Z.eq_dec (delta_sum r) 0) as [Hbal | Hunb].
+        - destruct (matches_loop_inv ridx r g (matches stage ridx r g) (mkPS g [] [] log) (Htab r (or_introl eq_refl)) Hbal Hnd)
+            as [st [Hrun Hinv]].
+          + intros mp Hmp. exact (Hsound stage ridx r g mp (or_introl eq_refl) Hmp).
+          + apply inv_start.
+          + exists st. split; [exact Hrun|]. destruct Hinv as [H1 H2 H3 _]. repeat split; assumption.
+        - rewrite (Hsil stage ridx r g (or_introl eq_refl) Hunb). cbn [matches_loop]. eexists. split; [reflexivity|].
+          cbn [ps_mol]. apply conserved_refl. }
+      destruct Hstep as [st [Hrun Hcons]]. rewrite Hrun.
+      assert (Hnd1 : NoDup (ids (ps_mol st))) by (destruct Hcons as [Hs _]; rewrite (skeleton_ids _ _ Hs); exact Hnd).
+      destruct (ps_hs st) as [|h hs].
+      + destruct (IH Htab' Hsound' Hsil' (ridx + 1) (ps_mol st) (ps_log st) fixed Hnd1) as [g' [l' [f' [Hr Hc]]]].
+        exists g', l', f'. split; [exact Hr|exact (conserved_trans _ _ _ Hcons Hc)].
+      + pose proof (recalc_conserved (ps_mol st) (h :: hs)) as Hrc.
+        assert (Hnd2 : NoDup (ids (recalc calc_h (ps_mol st) (h :: hs)))) by (destruct Hrc as [Hs _]; rewrite (skeleton_ids _ _ Hs); exact Hnd1).
+        destruct (IH Htab' Hsound' Hsil' (ridx + 1) _ (ps_log st) (union_set fixed (h :: hs)) Hnd2) as [g' [l' [f' [Hr Hc]]]].
+        exists g', l', f'. split; [exact Hr|exact (conserved_trans _ _ _ (conserved_trans _ _ _ Hcons Hrc) Hc)].
+  Qed.
+
+  (* one private __standardize call *)
+  Theorem pass_conserves stage rules fix_taut g :
+    table_ok rules -> matcher_sound rules -> unbalanced_silent rules -> NoDup (ids g) ->
+    exists g' log fixed, standardize_pass matches calc_h stage rules fix_taut g = Ok (g', log, fixed) /\ conserved g g'.
+  Proof. intros Ht Hs Hu Hnd. exact (rules_loop_conserves stage fix_taut rules Ht Hs Hu 0 g [] [] Hnd). Qed.
+
+  (* the four calls of standardize() *)
+  Theorem passes_conserve dbl sgl mtl fix_taut g :
+    table_ok (dbl ++ sgl ++ mtl) -> matcher_sound (dbl ++ sgl ++ mtl) -> unbalanced_silent (dbl ++ sgl ++ mtl) -> NoDup (ids g) ->
+    exists g' log fixed, standardize_passes matches calc_h dbl sgl mtl fix_taut g = Ok (g', log, fixed) /\ conserved g g'.
+  Proof.
+    intros Ht Hs Hu Hnd.
+    assert (sub : forall (P : list rule -> Prop) l, (forall a b, (forall x, In x a -> In x b) -> P b -> P a) -> P (dbl ++ sgl ++ mtl) ->
+                  (forall x, In x l -> In x (dbl ++ sgl ++ mtl)) -> P l) by (intros P l HP Hall Hin; exact (HP _ _ Hin Hall)).
+    assert (Hd : forall x, In x dbl -> In x (dbl ++ sgl ++ mtl)) by (intros; apply in_or_app; left; assumption).
+    assert (Hsg : forall x, In x sgl -> In x (dbl ++ sgl ++ mtl)) by (intros; apply in_or_app; right; apply in_or_app; left; assumption).
+    assert (Hmt : forall x, In x mtl -> In x (dbl ++ sgl ++ mtl)) by (intros; apply in_or_app; right; apply in_or_app; right; assumption).
+    assert (P1 : forall l, (forall x, In x l -> In x (dbl ++ sgl ++ mtl)) -> table_ok l /\ matcher_sound l /\ unbalanced_silent l).
+    { intros l Hl. split; [|split].
+      - intros x Hx. exact (Ht x (Hl x Hx)).
+      - intros s i x g0 mp Hx. exact (Hs s i x g0 mp (Hl x Hx)).
+      - intros s i x g0 Hx. exact (Hu s i x g0 (Hl x Hx)). }
+    clear sub. destruct (P1 dbl Hd) as [Td [Sd Ud]]. destruct (P1 sgl Hsg) as [Tsg [Ssg Usg]]. destruct (P1 mtl Hmt) as [Tm [Sm Um]].
+    unfold standardize_passes.
+    destruct (pass_conserves 0 dbl fix_taut g Td Sd Ud Hnd) as [g1 [l1 [f1 [R1 C1]]]]. rewrite R1.
+    assert (N1 : NoDup (ids g1)) by (destruct C1 as [Hsk _]; rewrite (skeleton_ids _ _ Hsk); exact Hnd).
+    assert (Hsecond : exists g2 l2 f2, (match f1 with [] => Ok (g1, [], []) | _ => standardize_pass matches calc_h 1 dbl fix_taut g1 end) = Ok (g2, l2, f2)
+                                       /\ conserved g1 g2).
+    { destruct f1 as [|x f1].
+      - exists g1, [], []. split; [reflexivity|apply conserved_refl].
+      - exact (pass_conserves 1 dbl fix_taut g1 Td Sd Ud N1). }
+    destruct Hsecond as [g2 [l2 [f2 [R2 C2]]]]. rewrite R2.
+    assert (N2 : NoDup (ids g2)) by (destruct C2 as [Hsk _]; rewrite (skeleton_ids _ _ Hsk); exact N1).
+    destruct (pass_conserves 2 sgl fix_taut g2 Tsg Ssg Usg N2) as [g3 [l3 [f3 [R3 C3]]]]. rewrite R3.
+    assert (N3 : NoDup (ids g3)) by (destruct C3 as [Hsk _]; rewrite (skeleton_ids _ _ Hsk); exact N2).
+    destruct (pass_conserves 3 mtl fix_taut g3 Tm Sm Um N3) as [g4 [l4 [f4 [R4 C4]]]]. rewrite R4.
+    eexists _, _, _. split; [reflexivity|].
+    exact (conserved_trans _ _ _ (conserved_trans _ _ _ (conserved_trans _ _ _ C1 C2) C3) C4).
+  Qed.
+End PassCharge.
+
+(* ---- the generated tables satisfy the hypotheses: standardize() with the real rule collections ---- *)
+Theorem real_tables_ok : table_ok all_rules.
+Proof. exact table_rule_ok. Qed.
+
+(* a matcher that never matches a pattern whose centre has no valence state (i.e. the input is valence-valid, see
+   may_have_state_single_sound) makes the unbalanced rules silent *)
+Definition respects_valence (matches : Z -> Z -> rule -> mol -> list mapping) : Prop :=
+  forall stage ridx r g, In r all_rules -> centre_invalid r = true -> matches stage ridx r g = [].
+
+Lemma real_unbalanced_silent matches : respects_valence matches -> unbalanced_silent matches all_rules.
+Proof. intros H stage ridx r g Hr Hd. exact (H stage ridx r g Hr (table_unbalanced_invalid r Hr Hd)). Qed.
+
+Theorem standardize_real_conserves matches calc_h fix_taut g :
+  matcher_sound matches all_rules -> respects_valence matches -> NoDup (ids g) ->
+  exists g' log fixed,
+    standardize_passes matches calc_h double_rules single_rules metal_rules fix_taut g = Ok (g', log, fixed) /\ conserved g g'.
+Proof.
+  intros Hs Hv Hnd.
+  exact (passes_conserve matches calc_h double_rules single_rules metal_rules fix_taut g real_tables_ok Hs (real_unbalanced_silent matches Hv) Hnd).
+Qed.
+
+(* non-vacuity: a sound matcher that does match, on a molecule where a rule fires and the net charge stays 0 *)
+Definition nitro_mol : mol :=
+  mkMol [(1, mkAtom 6 None 0 false (Some 3) None); (2, mkAtom 7 None 0 false (Some 0) None);
+         (3, mkAtom 8 None 0 false (Some 0) None); (4, mkAtom 8 None 0 false (Some 0) None)]
+        [(1, [(2, mkBond 1 None)]); (2, [(1, mkBond 1 None); (3, mkBond 2 None); (4, mkBond 2 None)]);
+         (3, [(2, mkBond 2 None)]); (4, [(2, mkBond 2 None)])].
+Definition nitro_rule_name : string := "[N;D3;z3](=[O;D1])(=[C,N,O])-[A]"%string.
+Definition nitro_matches (stage ridx : Z) (r : rule) (g : mol) : list mapping :=
+  if String.eqb (r_name r) nitro_rule_name then
+    filter (match_ok r g) [[(1, 2); (2, 3); (3, 4); (4, 1)]; [(1, 2); (2, 4); (3, 3); (4, 1)]]
+  else [].
+
+Lemma nitro_sound : matcher_sound nitro_matches all_rules.
+Proof.
+  intros stage ridx r g mp _ Hin. unfold nitro_matches in Hin. destruct (String.eqb (r_name r) nitro_rule_name); [|destruct Hin].
+  apply filter_In in Hin. tauto.
+Qed.
+
+Lemma nitro_respects_b : forallb (fun r => negb (centre_invalid r) || negb (String.eqb (r_name r) nitro_rule_name)) all_rules = true.
+Proof. vm_compute. reflexivity. Qed.
+Lemma nitro_respects : respects_valence nitro_matches.
+Proof.
+  intros stage ridx r g Hr Hc. pose proof (table_sweep _ nitro_respects_b r Hr) as H. cbn beta in H. rewrite Hc in H. cbn [negb orb] in H.
+  unfold nitro_matches. apply negb_true_iff in H. rewrite H. reflexivity.
+Qed.
+
+(* the hypotheses of standardize_real_conserves are satisfiable by a matcher that does match: nitromethane spelled C-N(=O)=O,
+   both embeddings of the nitro rule offered, the second one skipped as overlapping, N becomes +1, one O becomes -1 *)
+Theorem conserves_nonvacuous :
+  matcher_sound nitro_matches all_rules /\ respects_valence nitro_matches /\ NoDup (ids nitro_mol) /\
+  exists g' log fixed,
+    standardize_passes nitro_matches (fun _ _ => Some 0) double_rules single_rules metal_rules true nitro_mol = Ok (g', log, fixed) /\
+    List.length log = 1%nat /\ charge_of g' 2 = Some 1 /\ charge_of g' 3 = Some (-1) /\ charge_of g' 4 = Some 0 /\
+    bond_of g' 2 3 = Some (mkBond 1 None) /\ total_charge g' = total_charge nitro_mol.
+Proof.
+  split; [exact nitro_sound|]. split; [exact nitro_respects|]. split.
+  - apply nodup_z_NoDup. vm_compute. reflexivity.
+  - eexists _, _, _. split; [vm_compute; reflexivity|]. vm_compute. repeat split; reflexivity.
+Qed.
+
+(* ================================================================================================
+   F. fix_resonance: applying a found path conserves skeleton, adjacency and net charge
+   ================================================================================================ *)
+Lemma apply_orders_atoms : forall p g g', apply_orders g p = Ok g' -> m_atoms g' = m_atoms g /\ graph_of g' = graph_of g.
+Proof.
+  induction p as [|[[n m] o] p IH]; intros g g'; cbn [apply_orders].
+  - intros H. inversion H. split; reflexivity.
+  - destruct (zget (m_adj g) n) as [nb|]; [|discriminate]. destruct (zmem m (keys nb)); [|discriminate].
+    intros H. destruct (IH _ _ H) as [H1 H2]. split; [rewrite H1; reflexivity|].
+    rewrite H2. unfold graph_of. cbn [m_adj]. rewrite !graph_set_bond_dir. reflexivity.
+Qed.
+
+Lemma keeps_chg_shift d : keeps_elem (fun a => set_chg (a_chg a + d) a).
+Proof. intros a. split; reflexivity. Qed.
+
+Theorem charge_path_conserves g n p g' : NoDup (ids g) -> apply_charge_path g n p = Ok g' -> conserved g g'.
+Proof.
+  unfold apply_charge_path. set (m := path_end n p).
+  destruct (atom_of g m) as [am|] eqn:Em; [|discriminate]. destruct (atom_of g n) as [an|] eqn:En; [|discriminate].
+  intros Hnd H. destruct (apply_orders_atoms _ _ _ H) as [Hat Hgr].
+  set (f1 := fun a => set_chg (a_chg a - 1) a) in *. set (f2 := fun a => set_chg (a_chg a + 1) a) in *.
+  set (g1 := upd_atom g m f1) in *.
+  assert (K1 : keeps_elem f1) by (intros a; split; reflexivity).
+  assert (K2 : keeps_elem f2) by (intros a; split; reflexivity).
+  repeat split.
+  - rewrite (skeleton_atoms _ _ Hat). unfold g1. rewrite !skeleton_upd_atom by assumption. reflexivity.
+  - rewrite Hgr. reflexivity.
+  - rewrite (total_atoms _ _ Hat).
+    assert (Hnd1 : NoDup (ids g1)) by (unfold g1; rewrite ids_upd_atom; exact Hnd).
+    assert (E1 : exists a1, atom_of g1 n = Some a1).
+    { unfold g1. rewrite atom_of_upd_atom. rewrite En. destruct (n =? m); eexists; reflexivity. }
+    destruct E1 as [a1 E1]. rewrite (total_upd_atom g1 n f2 a1 Hnd1 E1).
+    unfold g1. rewrite (total_upd_atom g m f1 am Hnd Em). unfold f1, f2. cbn [a_chg set_chg set_chg_rad]. lia.
+Qed.
+
+Theorem radical_path_conserves g n p g' : NoDup (ids g) -> apply_radical_path g n p = Ok g' -> conserved g g'.
+Proof.
+  unfold apply_radical_path. set (m := path_end n p).
+  destruct (atom_of g m) as [am|] eqn:Em; [|discriminate]. destruct (atom_of g n) as [an|] eqn:En; [|discriminate].
+  intros Hnd H. destruct (apply_orders_atoms _ _ _ H) as [Hat Hgr].
+  set (f := fun a => set_chg_rad (a_chg a) (Some false) a) in *.
+  assert (K : keeps_elem f) by (intros a; split; reflexivity).
+  set (g1 := upd_atom g n f) in *.
+  repeat split.
+  - rewrite (skeleton_atoms _ _ Hat). unfold g1. rewrite !skeleton_upd_atom by assumption. reflexivity.
+  - rewrite Hgr. reflexivity.
+  - rewrite (total_atoms _ _ Hat).
+    assert (Hnd1 : NoDup (ids g1)) by (unfold g1; rewrite ids_upd_atom; exact Hnd).
+    assert (E1 : exists a1, atom_of g1 m = Some a1).
+    { unfold g1. rewrite atom_of_upd_atom. rewrite Em. destruct (m =? n); eexists; reflexivity. }
+    destruct E1 as [a1 E1]. rewrite (total_upd_atom g1 m f a1 Hnd1 E1).
+    unfold g1. rewrite (total_upd_atom g n f an Hnd En). unfold f. cbn [a_chg set_chg_rad]. lia.
+Qed.
+
+(* standardize_charges: the patch of one accepted match moves one unit of charge between two atoms the pattern constrains *)
+Theorem charged_patch_conserves g d u ad au :
+  NoDup (ids g) -> d <> u -> atom_of g d = Some ad -> atom_of g u = Some au -> a_chg ad = 1 -> a_chg au = 0 ->
+  conserved g (charged_patch g d u).
+Proof.
+  intros Hnd Hdu Hd Hu Hcd Hcu. unfold charged_patch.
+  assert (K0 : keeps_elem (set_chg 0)) by (intros a; split; reflexivity).
+  assert (K1 : keeps_elem (set_chg 1)) by (intros a; split; reflexivity).
+  repeat split.
+  - rewrite !skeleton_upd_atom by assumption. reflexivity.
+  - assert (Hnd1 : NoDup (ids (upd_atom g d (set_chg 0)))) by (rewrite ids_upd_atom; exact Hnd).
+    assert (E : atom_of (upd_atom g d (set_chg 0)) u = Some au).
+    { rewrite atom_of_upd_atom. destruct (u =? d) eqn:E; [apply Z.eqb_eq in E; congruence|exact Hu]. }
+    rewrite (total_upd_atom _ u (set_chg 1) au Hnd1 E). rewrite (total_upd_atom g d (set_chg 0) ad Hnd Hd).
+    cbn [a_chg set_chg set_chg_rad]. lia.
+Qed.
